@@ -210,7 +210,20 @@ func cmdCheck(args []string) int {
 	fs := flag.NewFlagSet("check", flag.ExitOnError)
 	tier := fs.String("tier", "", "quick|thorough")
 	writeBaseline := fs.Bool("write-baseline", false, "maintenance: record the obligations discharged now as baseline")
-	fs.Parse(args)
+	// flags may follow the property id
+	var flags, pos []string
+	for i := 0; i < len(args); i++ {
+		if strings.HasPrefix(args[i], "-") {
+			flags = append(flags, args[i])
+			if (args[i] == "--tier" || args[i] == "-tier") && i+1 < len(args) {
+				flags = append(flags, args[i+1])
+				i++
+			}
+		} else {
+			pos = append(pos, args[i])
+		}
+	}
+	fs.Parse(append(flags, pos...))
 	if fs.NArg() < 1 {
 		usage()
 	}
